@@ -13,7 +13,7 @@ EXPLANATION = (
     "and parse_partial_annotation are twins."
 )
 THOROUGH_CONFIGS = [C.MINIMAL, C.NO_TAG]
-QUICK_CONFIGS = [C.NO_TAG]
+QUICK_CONFIGS = [C.NO_TAG, C.MINIMAL]
 NOT_DECIDED = ["equality of the re-parsed sentence as a value", "idempotence of write-after-parse as a value"]
 
 PT = C.S + "::parse_tokenized"
